@@ -219,7 +219,11 @@ def synth_model_behaviours(pid, n, depth, nc=3, arp="FALSE", alloc=3):
     return hs, r
 
 
-def run_synth_family(pid, tier, replay, profile, nhist, length, exhaustive_depth=0):
+def run_synth_family(pid, tier, replay, profile, nhist, length, exhaustive_depth=0, drums=None):
+    """drums (C05): the input dimension "short percussion hits" - dict(exh=depth of the exhaustive drum histories on channel 9,
+    exh_x=depth on an XG / GS drum channel, sim=(behaviours, depth) simulated by TLC over SynthMC!DrumAlphabet,
+    rnd=(histories, length) of gen_synth.drum_history, mc=depth of the exhaustive model run over DrumAlphabet); with drums
+    every history is finished by gen_synth.settle(): all keys / pedals released + a final Drain step of >= 60 ms."""
     t0 = time.time()
     rng = random.Random(vc.seed() * 7919 + hash(pid) % 1000)
     rng = random.Random(vc.seed() * 7919 + sum(map(ord, pid)))
@@ -252,11 +256,51 @@ def run_synth_family(pid, tier, replay, profile, nhist, length, exhaustive_depth
     histories += mb + mb2
     nmb = len(mb) + len(mb2)
     histories += [gen_synth.random_history(rng, profile, length) for _ in range(nhist)]
+    ndrum = {}
+    drum_mc = []
+    if drums:
+        import threading
+        drum_extra = "CONSTANT Alphabet <- DrumAlphabet\n"
+        # leg (A) over the drum alphabet (runs beside the trace phase): the model keeps C05 under every short-hit history
+        def drum_model_run():
+            cfg = write_cfg("SynthMC_%s_drum.cfg" % pid, MC_CFG % {"nc": 3, "depth": drums["mc"], "arp": "FALSE", "alloc": 3, "emit": 0,
+                                                                  "extra": drum_extra + "CONSTRAINT DepthBound\nVIEW View"})
+            # (a single worker keeps the TLCGet("level") bound exact; 5 steps = 10 k transitions, 10 s)
+            r = vc.run_tlc("SynthMC", cfg=cfg, timeout=2400, heap="8g", workers=1 if drums["mc"] <= 6 else 8, tag="SynthMCdrum-" + pid)
+            r.scope = {"NC": 3, "depth": drums["mc"], "arp": "FALSE", "alloc": 3, "alphabet": "DrumAlphabet"}
+            drum_mc.append(r)
+        th = threading.Thread(target=drum_model_run)
+        th.start()
+        h0 = len(histories)
+        histories += list(gen_synth.exhaustive_drum_histories(drums["exh"], ch=9))
+        for kind in (0, 2):      # MIDI channel 1 as XG (bank MSB 127) and as GS (drum part SysEx) percussion channel
+            histories += list(gen_synth.exhaustive_drum_histories(drums["exh_x"], ch=1, setup=gen_synth.perc_channel_setup(rng, 1, 0, kind)))
+        ndrum["exhaustive"] = len(histories) - h0
+        nsim, dsim = drums["sim"]
+        cfg = write_cfg("SynthMC_sim_%s_drum.cfg" % pid, MC_CFG % {"nc": 3, "depth": 1000, "arp": "FALSE", "alloc": 3, "emit": dsim,
+                                                                  "extra": drum_extra + "CONSTRAINT Emit"})
+        sr = vc.run_tlc("SynthMC", cfg=cfg, timeout=600, heap="4g", simulate=max(1, nsim // 4), depth=dsim + 1, workers=4, tag="SynthSimDrum-" + pid)
+        dinit = {"e": "Init", "rate": 44100, "chips": 1, "lim": 3, "mch": [0, 9], "arp": 0, "alloc": -1, "banks": gen_synth.ALLOC_BANKS}
+        beh = re.findall(r'"BEHAVIOUR",\s*"(\[[0-9,\s]*\])"', sr.out)[:nsim]
+        histories += [[dinit] + [gen_synth.MC_DRUM_ALPHABET[i - 1] for i in json.loads(b)] for b in beh]
+        ndrum["model_generated"] = len(beh)
+        nrnd, lrnd = drums["rnd"]
+        histories += [gen_synth.drum_history(rng, lrnd) for _ in range(nrnd)]
+        ndrum["random"] = nrnd
+        histories = [gen_synth.settle(h) for h in histories]
+    samples = sample_histories(histories[nex + nmb:], 2) + sample_histories(histories[nex:nex + 1], 1)
+    if drums:
+        samples += sample_histories(histories[-1:], 1, maxlen=40)
+        # the chunks of run_histories are contiguous: mix the kinds of histories (the random ones with their minute-long Gen
+        # steps cost most) so that every chunk gets the same share of each
+        rng.shuffle(histories)
     failures, counters, stats = vtrace.run_histories(pid, "drive_synth", "SynthTrace", histories)
+    if drums:
+        th.join()
     if stats["infra"]:
         print("INFRA:", stats["infra"][0][:2000])
         return 3
-    mruns = synth_model_phase(pid, tier)
+    mruns = synth_model_phase(pid, tier) + drum_mc
     mstates = sum(r.distinct for r in mruns)
     mtrans = sum(r.generated for r in mruns)
     coverage = {
@@ -265,10 +309,11 @@ def run_synth_family(pid, tier, replay, profile, nhist, length, exhaustive_depth
         "records_validated": stats["records"],
         "exhaustive_short_histories": nex,
         "model_generated_behaviours_replayed": nmb,
+        "short_percussion_hit_histories": ndrum,
         "refinement": {"steps_checked_against_model": counters.get("refined", 0), "steps_skipped": counters.get("refskip", 0),
                        "steps_drifted": counters.get("drifted", 0), "first_drifts": stats.get("drift", [])[:5]},
         "monitor_counters": counters,
-        "samples": sample_histories(histories[nex + nmb:], 2) + sample_histories(histories[nex:nex + 1], 1),
+        "samples": samples,
         "evaluations": stats["records"], "distinct_nontrivial": len(histories),
         "rule": "every recorded API call is one evaluation; histories are distinct random / exhaustive / TLC-generated call sequences",
         "model_runs": [{"scope": r.scope, "ok": r.ok, "violation": r.violation, "distinct": r.distinct, "generated": r.generated,
@@ -294,7 +339,8 @@ def check_c04(pid, tier, replay):
 @register("C05")
 def check_c05(pid, tier, replay):
     q = tier == "quick"
-    return run_synth_family(pid, tier, replay, "alloc", 700 if q else 6000, 40 if q else 60, exhaustive_depth=2 if q else 3)
+    drums = dict(exh=5, exh_x=4, sim=(80, 14), rnd=(80, 8), mc=6) if q else dict(exh=6, exh_x=5, sim=(800, 24), rnd=(1500, 16), mc=8)
+    return run_synth_family(pid, tier, replay, "alloc", 700 if q else 6000, 40 if q else 60, exhaustive_depth=2 if q else 3, drums=drums)
 
 
 @register("C06")
@@ -485,6 +531,11 @@ def check_c07(pid, tier, replay):
         for i in range(40 if tier == "quick" else 400):
             song = gen_seq.random_song(rng, maxev=6, ntracks=rng.choice([1, 2]))
             hs.append(gen_seq.play_history(rng, song, "audio"))
+        # one instance, two songs in a row
+        for i in range(50 if tier == "quick" else 500):
+            a = gen_seq.random_song(rng, maxev=6, ntracks=rng.choice([2, 3, 4]))
+            b = gen_seq.random_song(rng, maxev=8, ntracks=rng.choice([1, 2, 3, 4, 5]))
+            hs.append(gen_seq.reload_history(rng, a, b))
         return hs
     return run_seq_family(pid, tier, replay, mk)
 
@@ -498,6 +549,10 @@ def check_c09(pid, tier, replay):
             song = gen_seq.random_song(rng, maxev=8 if tier == "quick" else 16, loops="random" if rng.random() < 0.85 else "none",
                                        tempo_rich=rng.random() < 0.35)
             hs.append(gen_seq.play_history(rng, song, "loop" if rng.random() < 0.9 else "plain"))
+        # a seek into a looping song: the rest of the pass, then the remaining passes (counted from the start of the song)
+        for i in range(60 if tier == "quick" else 600):
+            song = gen_seq.random_song(rng, maxev=8, loops=rng.choice(["valid", "valid", "random", "none"]), tempo_rich=rng.random() < 0.3)
+            hs.append(gen_seq.seek_history(rng, song, loop=True, loop_p=1.0))
         return hs
     return run_seq_family(pid, tier, replay, mk)
 
@@ -511,6 +566,6 @@ def check_c08(pid, tier, replay):
             song = gen_seq.random_song(rng, maxev=10 if tier == "quick" else 20, loops=rng.choice(["none", "none", "random"]),
                                        tempo_rich=rng.random() < 0.5)
             # melodic channels only: no percussion minimum-life residue after the seek
-            hs.append(gen_seq.seek_history(rng, song))
+            hs.append(gen_seq.seek_history(rng, song, loop=i % 3 == 2))
         return hs
     return run_seq_family(pid, tier, replay, mk, mc="SeqMC_seek_%s.cfg")
